@@ -120,7 +120,7 @@ func buildFaultTree(id int, seed int64) *faultTree {
 	t.cfg.VT = []string{"int", "string", "intslice"}[rng.Intn(3)]
 	t.cfg.NF = []string{"bin", "v1"}[rng.Intn(2)]
 	t.cfg.Cache = []string{"none", "none", "large"}[rng.Intn(3)]
-	t.prep = []string{"persisted", "persisted", "dirty", "dirty", "memory", "emptied"}[rng.Intn(6)]
+	t.prep = []string{"persisted", "persisted", "dirty", "dirty", "memory", "emptied", "dirtyleft", "dirtyleft", "dirtyright", "dirtyright"}[rng.Intn(10)]
 	t.kc = newKeyCodec(t.cfg.KT, t.cfg.NK, t.cfg.Bf, rng, nil, 3)
 	t.cfg.Layers = t.kc.layers
 	t.vc = newValCodec(t.cfg.VT)
@@ -178,6 +178,30 @@ func buildFaultTree(id int, seed int64) *faultTree {
 	case "dirty":
 		m = reload(m)
 		mut(m, t.model, 1+rng.Intn(4), 3)
+	case "dirtyleft", "dirtyright":
+		// only the path next to the present key of the highest layer is private: removing that key merges a dirty
+		// in-memory node with persisted ones
+		m = reload(m)
+		top := 0
+		for k := range t.model {
+			if top == 0 || t.kc.layers[k-1] > t.kc.layers[top-1] || (t.kc.layers[k-1] == t.kc.layers[top-1] && k < top) {
+				top = k
+			}
+		}
+		nb := top - 1
+		if t.prep == "dirtyright" {
+			nb = top + 1
+		}
+		if top != 0 && nb >= 1 && nb <= t.cfg.NK {
+			v := 1
+			if old, ok := t.model[nb]; ok {
+				v = old%2 + 1
+			}
+			if err := m.Insert(ctx, t.kc.Key(nb), t.vc.Val(v)); err != nil {
+				panic(err)
+			}
+			t.model[nb] = v
+		}
 	case "emptied":
 		m = reload(m)
 		for _, p := range pairsOf(t.model) {
